@@ -483,6 +483,11 @@ func (ev *Evaluator) rangeStmt(env *Env, s *ast.RangeStmt, label string) ctrl {
 		}
 	case *MapVal:
 		keys := append([]string{}, xv.Keys...)
+		if ev.MapReverse {
+			for i, j := 0, len(keys)-1; i < j; i, j = i+1, j-1 {
+				keys[i], keys[j] = keys[j], keys[i]
+			}
+		}
 		for _, k := range keys {
 			v, present := xv.M[k]
 			if !present {
